@@ -9,6 +9,7 @@ import (
 	"testing"
 
 	biscuit "github.com/biscuit-auth/biscuit-go/v2"
+	"github.com/biscuit-auth/biscuit-go/v2/datalog"
 	"pgregory.net/rapid"
 
 	"verif/internal/bridge"
@@ -50,6 +51,7 @@ func checkC17(c C17Case, rec *obs.Recorder) *obs.Violation {
 		rng = bridge.Chunked{R: rng, N: c.Chunk}
 	}
 	var live []c17Tok
+	sharedU := &biscuit.Unmarshaler{Symbols: &datalog.SymbolTable{}}
 	nextSign := 0
 	idOwner := map[string]int{} // revocation id -> signing operation
 	sameContentTwice := false
@@ -161,6 +163,31 @@ func checkC17(c C17Case, rec *obs.Recorder) *obs.Violation {
 					return v
 				}
 			}
+		case "append-twice":
+			// one built *Block value handed to Append twice: two signing operations, two identifiers
+			if parent.sealed {
+				continue
+			}
+			ci := op.Content % len(c.Contents)
+			hist = append(hist, fmt.Sprintf("append-twice(t%d,c%d)", on, ci))
+			bb := parent.tok.CreateBlock()
+			if err := bridge.AddBlockTo(bb, c.Contents[ci]); err != nil {
+				return obs.Violf("history [%s]: cannot fill the block: %v", strings.Join(hist, ","), err)
+			}
+			blk := bb.Build()
+			for k := 0; k < 2; k++ {
+				nt, err := parent.tok.Append(rng, blk)
+				if err != nil {
+					return obs.Violf("history [%s]: append failed: %v", strings.Join(hist, ","), err)
+				}
+				live = append(live, c17Tok{tok: nt, signed: append(append([]int{}, parent.signed...), nextSign)})
+				nextSign++
+				contentSigned[ci]++
+				sameContentTwice = true
+				if v := observe(len(live)-1, &parent); v != nil {
+					return v
+				}
+			}
 		case "build":
 			hist = append(hist, fmt.Sprintf("build(c%d)", op.Content%len(c.Contents)))
 			if v := build(op.Content); v != nil {
@@ -204,7 +231,14 @@ func checkC17(c C17Case, rec *obs.Recorder) *obs.Violation {
 			if err != nil {
 				return obs.Violf("history [%s]: serialize: %v", strings.Join(hist, ","), err)
 			}
-			nt, err := biscuit.Unmarshal(ser)
+			// odd targets are read through one long-lived Unmarshaler value: tokens it returned
+			// earlier must keep their identifiers when it reads another token
+			var nt *biscuit.Biscuit
+			if on%2 == 1 {
+				nt, err = sharedU.Unmarshal(ser)
+			} else {
+				nt, err = biscuit.Unmarshal(ser)
+			}
 			if err != nil {
 				return obs.Violf("history [%s]: unmarshal: %v", strings.Join(hist, ","), err)
 			}
@@ -250,7 +284,7 @@ func drawC17(t *rapid.T) C17Case {
 	n := rapid.IntRange(1, 14).Draw(t, "nops")
 	for i := 0; i < n; i++ {
 		c.Ops = append(c.Ops, C17Op{
-			Op:      rapid.SampledFrom([]string{"append", "append", "append", "append-last", "append-last", "seal", "reload", "build", "fanout"}).Draw(t, "op"),
+			Op:      rapid.SampledFrom([]string{"append", "append", "append", "append-last", "append-last", "seal", "reload", "reload", "build", "fanout", "append-twice"}).Draw(t, "op"),
 			On:      rapid.IntRange(0, 11).Draw(t, "on"),
 			Content: rapid.IntRange(0, 1).Draw(t, "content"),
 		})
@@ -261,7 +295,7 @@ func drawC17(t *rapid.T) C17Case {
 func TestC17(t *testing.T) {
 	rec := obs.New("C17")
 	defer rec.Flush(true)
-	rec.SetExtra("rule", "rapid derivation histories over a growing family of tokens under one root key: build / append / seal / serialize+unmarshal on any live token (the byte buffer handed to Unmarshal is overwritten afterwards, as a caller reusing its buffer would), block content drawn from a pool of 1-2 contents so identical content is signed repeatedly on the same and on different tokens, one deterministic random stream that never repeats, delivered whole or in short reads of 1 / 5 / 31 bytes; operations include append-last (deep chains) and fan-out (the same content appended 8 times to one parent). Oracle after every step, for every live token: one identifier per block, parent's identifiers are a prefix of the child's, identifier i equals the signature the independent reader finds on block i, identifiers of different signing operations are pairwise different over the whole history, and the parent is unchanged. Non-trivial = identical content signed at least twice, or a chain of >= 3 blocks; distinct by history.")
+	rec.SetExtra("rule", "rapid derivation histories over a growing family of tokens under one root key: build / append / seal / serialize+unmarshal on any live token (the byte buffer handed to Unmarshal is overwritten afterwards, as a caller reusing its buffer would), block content drawn from a pool of 1-2 contents so identical content is signed repeatedly on the same and on different tokens, one deterministic random stream that never repeats, delivered whole or in short reads of 1 / 5 / 31 bytes; operations include append-last (deep chains), fan-out (the same content appended 8 times to one parent) and append-twice (one built *Block value handed to Append twice); every other reload goes through one long-lived Unmarshaler value. Oracle after every step, for every live token: one identifier per block, parent's identifiers are a prefix of the child's, identifier i equals the signature the independent reader finds on block i, identifiers of different signing operations are pairwise different over the whole history, and the parent is unchanged. Non-trivial = identical content signed at least twice, or a chain of >= 3 blocks; distinct by history.")
 	rec.SetExtra("assumptions", []string{"fresh randomness is modelled by a counter-mode SHA-256 stream (never repeats within a history)"})
 	harness.RunWith(t, harness.Spec[C17Case]{ID: "C17", Draw: drawC17, Check: checkC17}, rec)
 }
